@@ -77,7 +77,7 @@ func genAlphabet(gen *vlib.G) {
 }
 
 func genUVRand(gen *vlib.G) {
-	kRej := vlib.Pick(gen, 32, 64)
+	kRej := vlib.Pick(gen, 48, 64) // the quick tier also prunes the parameter grid (quickRandPoint)
 	for _, sp := range uvSpecs() {
 		sp := sp
 		if sp.sampler == "" {
@@ -155,6 +155,21 @@ func checkUVRand(t *vlib.T, sp uvSpec, p []float64, kRej int) {
 		if !ok {
 			return false
 		}
+		if sp.name == "AlphaStable" && isFinite(cur) {
+			// location-scale family: the same answers with C = 1, Mu = 0 give the standardised
+			// variate x0, and x = C*x0 + Mu (+ (2/pi) Beta C log C when Alpha = 1).
+			ref := &gridSrc{a: src.a, idx: src.idx, cont: splitmix{pathSeed(src.idx)}, limit: drawCap}
+			x0 := sp.mk([]float64{p[0], p[1], 1, 0}, rand.Source(ref)).(hasRand).Rand()
+			want := p[2]*x0 + p[3]
+			if p[0] == 1 {
+				want += 2 / math.Pi * p[1] * p[2] * math.Log(p[2])
+			}
+			if !closeRA(cur, want, 1e-12, 1e-12*(math.Abs(p[3])+p[2])) && bad < 3 {
+				bad++
+				r.fail("Rand-location-scale", fmt.Sprint(src.idx), "Rand=%v but C*x0+Mu (+log term) = %v with x0=%v from the same answers", cur, want, x0)
+				return false
+			}
+		}
 		inSupp := cur >= lo && cur <= hi && isFinite(cur)
 		if sp.points != nil && cur != math.Floor(cur) {
 			inSupp = false
@@ -202,9 +217,33 @@ func checkUVRand(t *vlib.T, sp uvSpec, p []float64, kRej int) {
 		if !(ksv <= limit) {
 			r.fail("Rand-pushforward-KS", "", "Kolmogorov distance %g at x=%v between the push-forward of the %d^%d answer grid and the CDF exceeds %g", ksv, at, K, depth, limit)
 		}
-	} else if cdf == nil {
-		// AlphaStable without a closed-form CDF: symmetry of the push-forward for Beta = 0.
+	} else if cdf == nil && bad == 0 {
+		// AlphaStable without a closed-form CDF: for Beta = 0 the law is symmetric about Mu,
+		// so the push-forward and its mirror image are within twice the discretisation bound.
 		t.Count("rand_points_without_cdf", 1)
+		if sp.name == "AlphaStable" && p[1] == 0 {
+			mir := make([]float64, len(vals))
+			for i, v := range vals {
+				mir[i] = 2*p[3] - v
+			}
+			emp := func(x float64) float64 {
+				s := 0.0
+				for i, v := range mir {
+					if v <= x {
+						s += wts[i]
+					}
+				}
+				return s
+			}
+			if len(vals) <= 1<<14 {
+				d, at2 := ksPoints(vals, wts, emp, false)
+				// both empirical laws have atoms of weight K^-depth: allow one atom on top of the bound
+				if !(d <= 2*limit) {
+					r.fail("Rand-symmetric-for-Beta=0", "", "push-forward and its mirror image about Mu differ by %g at %v", d, at2)
+				}
+				ksv, at = d/2, at2
+			}
+		}
 	}
 	t.Outcome(fmt.Sprintf("%s %s K=%d depth=%d paths~%s draws<=%s ks/limit~%s", sp.name, sp.sampler, K, depth, bucket(float64(paths)), bucket(float64(maxDraws)), ratioBucket(ksv/limit)))
 	devNote("rand", "%s\t%s\tK=%d\tdepth=%d\tpaths=%d\tdraws=%d\tks=%.4g\tlimit=%.4g\tratio=%.3f", pkey(sp, p), sp.sampler, K, depth, paths, maxDraws, ksv, limit, ksv/limit)
